@@ -17,8 +17,8 @@ func (e StdEng) Map(fn interface{}, a Tensor, opts ...FuncOpt) (retVal Tensor, e
 	}
 
 	var reuse DenseTensor
-	var safe, _, incr bool
-	if reuse, safe, _, incr, _, err = handleFuncOpts(a.Shape(), a.Dtype(), a.DataOrder(), true, opts...); err != nil {
+	var safe, toReuse, incr bool
+	if reuse, safe, toReuse, incr, _, err = handleFuncOpts(a.Shape(), a.Dtype(), a.DataOrder(), true, opts...); err != nil {
 		return
 	}
 	switch {
@@ -59,6 +59,17 @@ func (e StdEng) Map(fn interface{}, a Tensor, opts ...FuncOpt) (retVal Tensor, e
 	default:
 		used = dataReuse
 		uit = rit
+	}
+
+	// the kernels map a buffer onto itself: a destination supplied by the caller receives the
+	// operand's elements first
+	if toReuse && !incr {
+		if useIter {
+			storage.CopyIter(typ, dataReuse, dataA, rit, ait)
+			rit.Reset()
+		} else {
+			storage.Copy(typ, dataReuse, dataA)
+		}
 	}
 
 	// DO
